@@ -54,6 +54,26 @@ class UQ:
     def __repr__(self): return f"UQ({self.v})"
 
 
+class UQE(UQ):
+    """like UQ, but x ** <int literal> is the exact power (the model prints it as npow x n)"""
+    __slots__ = ()
+
+    def __pow__(self, o):
+        if isinstance(o, int) and not isinstance(o, bool) and o >= 0:
+            return UQE(self.v ** o)
+        return UQ.__pow__(self, o)
+
+
+for _n in ("__add__", "__radd__", "__sub__", "__rsub__", "__mul__", "__rmul__", "__truediv__", "__rtruediv__", "__neg__", "__abs__"):
+    def _mk(name):
+        base = getattr(UQ, name)
+
+        def f(self, *a):
+            return UQE(base(self, *a))
+        return f
+    setattr(UQE, _n, _mk(_n))
+
+
 class UQF(float):
     """a float (so isinstance(x, float) holds) that carries an exact rational and computes like UQ"""
     def __new__(cls, v):
